@@ -530,3 +530,87 @@ def freeze_trial():
 
 if __name__ == "__main__" and "--freeze-trial" in __import__("sys").argv:
     freeze_trial()
+
+
+GETTER = re.compile(r"::(trailing_comments|leading_comments)$")
+SRC_HANDLED = re.compile(r"strip_(leading_|trailing_)?trivia$|take_(leading|trailing)_(comments|trivia)$|update_(leading_|trailing_)?trivia$|"
+                         r"(^|::)formatters::[a-z_]+::(format_|hang_)[a-z_]*$")
+
+
+def rule_copy(ctx, prop):
+    """`node.trailing_comments()` hands back a *copy*: attaching it somewhere else leaves the original where it was"""
+    rep = Report(prop, "R-COPY", "when the comments read with the getter `leading_comments()` / `trailing_comments()` are attached to another "
+                                 "token (FormatTriviaType::Append / Replace), the node they were read from is stripped, re-formatted or "
+                                 "discarded in the same function - it does not reach the return value still carrying them")
+    for cfg, prog in ctx.programs.items():
+        n = 0
+        for f in prog.fns("stylua_lib"):
+            if not f.path.startswith("formatters::"):
+                continue
+            for b, t in f.calls():
+                c = callee(t)
+                if not GETTER.search(c) or not t["args"] or not t.get("dst") or is_const(t["args"][0]):
+                    continue
+                attached = False
+                seen, work = set(), [t["dst"]["l"]]
+                while work:
+                    l = work.pop()
+                    if l in seen:
+                        continue
+                    seen.add(l)
+                    for u in forward_uses(f, l):
+                        if u[0] == "agg":
+                            if "FormatTriviaType" in u[2]["rv"].get("adt", ""):
+                                attached = True
+                            work.append(u[2]["dst"]["l"])
+                        elif u[0] == "call" and u[2].get("dst") and not u[2]["dst"].get("p"):
+                            work.append(u[2]["dst"]["l"])
+                if not attached:
+                    continue
+                n += 1
+                roots = {r[:2] if r[0] != "call" else r for r in provenance(f, t["args"][0], into_aggs=False)}
+                handled = False
+                for b2, t2 in f.calls():
+                    if b2 == b or not SRC_HANDLED.search(callee(t2)):
+                        continue
+                    for a in t2["args"]:
+                        if not is_const(a) and ({r[:2] if r[0] != "call" else r for r in provenance(f, a, into_aggs=False)} & roots):
+                            handled = True
+                # does the source reach the return value?
+                returned = False
+                src_locals = set()
+                for r in provenance(f, t["args"][0], through=None, into_aggs=False):
+                    pass
+                base = op_place(t["args"][0])["l"]
+                # walk back through the borrow to the owning local
+                owners = {base}
+                for bi_, si_, s_ in f.defs().get(base, []):
+                    if si_ != "term" and s_["rv"]["k"] in ("ref", "rawptr"):
+                        owners.add(s_["rv"]["p"]["l"])
+                seen2, work2 = set(), list(owners)
+                while work2:
+                    l = work2.pop()
+                    if l in seen2:
+                        continue
+                    seen2.add(l)
+                    for u in forward_uses(f, l):
+                        if u[0] == "ret":
+                            returned = True
+                        elif u[0] == "agg":
+                            work2.append(u[2]["dst"]["l"])
+                        elif u[0] == "call" and u[2].get("dst") and not u[2]["dst"].get("p") and u[3] == 0 and \
+                                re.search(r"Box::<.*>::new$|::with_[a-z_]+$|Clone>::clone$|to_owned$", callee(u[2])):
+                            if u[2]["dst"]["l"] == 0:
+                                returned = True
+                            work2.append(u[2]["dst"]["l"])
+                ok = handled or not returned
+                rep.inst(f"{f.key} comments copied with {c.split('::')[-1]} leave their source", {"at": f.loc(t["sp"]), "source_handled": handled,
+                                                                                                  "source_returned": returned}, cfg, ok=ok)
+                if not ok:
+                    rep.violation(f"{f.key} copied-comments-stay-on-source {c.split('::')[-1]}",
+                                  f"{f.path} reads comments with the getter {c.split('::')[-1]}() (a copy), attaches them to another token and "
+                                  f"returns the node they were read from without stripping it (no take_* / strip_* / update_*_trivia / "
+                                  f"formatter call on it): every such comment appears twice, and a `--` copy left inside swallows what "
+                                  f"follows on its line", f.loc(t["sp"]), cfg)
+        rep.floor("getter-copied comments that are re-attached", n, 2, cfg)
+    return rep
